@@ -636,6 +636,41 @@ def check_tridiag(chk, sc):
                                       f"started at the normalised rhs: max rel diff {d:.3e} (size {kk})", pl)
                         return
                     chk.count("lanczos_entries_checked")
+                if Minv is not None and len(r.pcalls) >= 2:
+                    # Lean `cg_tridiag_eq_lanczos` on the implementation's OWN vectors: the arguments of the preconditioner
+                    # closure are the residuals r_k; with z_k = M^-1 r_k, s_k = (-1)^k / sqrt(r_k'z_k), zhat = s z, qhat = s r:
+                    # zhat_i' A zhat_j = T[i, j] and qhat_i' zhat_j = delta_ij (band entries: local relations, robust without
+                    # re-orthogonalisation)
+                    mz = min(kk, len(r.pcalls), 8 if kap <= 100 else 4)
+                    Mi = Minv.double()
+                    if sc.get("pre_form", "dense") == "diag":
+                        Mi = torch.diag_embed(torch.diagonal(Mi, dim1=-2, dim2=-1))
+                    Mi = Mi.expand(*bshape, n, n)[bidx]
+                    Zh, Qh = [], []
+                    for i2 in range(mz):
+                        rk = r.pcalls[i2].double().expand(*bshape, n, rhs64.shape[-1])[bidx][:, j]
+                        zk = Mi @ rk
+                        rz = float(rk @ zk)
+                        if not rz > 1e-24:
+                            break
+                        sg = (-1.0) ** i2 / math.sqrt(rz)
+                        Zh.append(sg * zk)
+                        Qh.append(sg * rk)
+                    mz = len(Zh)
+                    if mz >= 1:
+                        Zm, Qm = torch.stack(Zh, 1), torch.stack(Qh, 1)
+                        G = Zm.T @ A64[bidx] @ Zm
+                        I2 = Qm.T @ Zm
+                        bandm = torch.ones(mz, mz, dtype=torch.bool).tril(1).triu(-1)
+                        scale = float(Tg[:mz, :mz].abs().max())
+                        d1 = float((G - Tg[:mz, :mz])[bandm].abs().max() / scale)
+                        d2 = float((I2 - torch.eye(mz, dtype=torch.float64))[bandm].abs().max())
+                        # measured over quick seeds 0..19 + thorough 0..1: worst deviation 2e-15 * kappa (local relations only)
+                        if d1 > 1e-9 * max(1.0, kap) or d2 > 1e-9 * max(1.0, kap):
+                            chk.violation(cell + "/zAz", f"tridiagonal of column {j} batch {bidx} is not Zhat' A Zhat of the normalised preconditioned residuals "
+                                          f"observed at the preconditioner closure: max rel diff {d1:.3e}; Qhat' Zhat - I: {d2:.3e} (leading {mz} rows)", pl)
+                            return
+                        chk.count("zAz_checked")
                 if kk == n and n <= 8 and kap <= 100:
                     # full dimension: e1' f(T) e1 = q0' f(B) q0 / (q0'q0)
                     w, V = torch.linalg.eigh(Tg)
